@@ -672,10 +672,18 @@ def generate(repo):
 
     def q2d():
         fn = get_def_inlined(qp, 'Q2d', [mo])
-        return translate_fn(fn, 'q2d', ['n', 'm'], ['r', 't'],
+        text = translate_fn(fn, 'q2d', ['n', 'm'], ['r', 't'],
                             tr_kwargs={'intfuncs': {'f_q2d': f'{M}.q2dfI sqrt', 'g_q2d': f'{M}.q2dgI sqrt'}, 'mixed': {'Qbfs': ('qbfs sqrt', 'ik')},
                                        'unary': {'np.sin': 'sinf', 'np.cos': 'cosf'}, 'sqrt': 'sqrt'},
                             tuple_funcs={'abc_q2d': ('abcQ2d', 3)}, extra_binders='(sinf cosf sqrt : K → K) ')
+        # the proof of gen_q2d addresses the let-bindings of this text by position (extract_lets): any other statement shape
+        # (a behaviour-preserving rewrite included) is refused -> fallback text, TIE-DEGRADED, widened correspondence
+        import re
+        import hashlib
+        seq = ' '.join(re.findall(r'\blet (\w+)', text))
+        if hashlib.sha256(seq.encode()).hexdigest()[:16] != '402520c63f6858bb':
+            raise Untranslatable('the statement sequence of Q2d differs from the one the proof of gen_q2d was written for')
+        return text
     g.item('Q2d', 'prysm/polynomials/qpoly.py:Q2d', lambda: get_def(qp, 'Q2d'), q2d,
            f'def q2d (sinf cosf sqrt : K → K) (n m : Int) (r t : K) : K :=\n'
            f'  {M}.q2d sqrt n.toNat m r (if m < 0 then sinf (Num.ofInt (Int.natAbs m) * t) else cosf (Num.ofInt (Int.natAbs m) * t))')
